@@ -196,6 +196,7 @@ macro_rules! common {
                     fclip(query::details::clip_segment_segment((a1, b1), (a2, b2)))
                 }
                 "clipn" => clipn(a),
+                "pff" | "pfv" => pfeat(func, a),
                 "clipal" => {
                     let mins = p(a); let maxs = p(a); let o = p(a); let d = v(a);
                     match query::details::clip_aabb_line(&px::bounding_volume::Aabb::new(mins, maxs), &o, &d) {
@@ -470,6 +471,7 @@ pub mod m3 {
                 match s.planar_normal(2) { None => "none".into(), Some(n) => fv(&n) })
     }
     fn clipn(_a: &mut Args) -> String { "nofn".into() }
+    fn pfeat(_f: &str, _a: &mut Args) -> String { "nofn".into() }
     fn gen_clipn(_r: &mut Rng, _cls: &str, _a1: &V, _b1: &V, _a2: &V, _b2: &V, _out: &mut Vec<(String, String)>) {}
     common!();
 }
@@ -532,12 +534,33 @@ pub mod m2 {
         let a1 = p(a); let b1 = p(a); let a2 = p(a); let b2 = p(a); let n = v(a);
         fclip(px::query::details::clip_segment_segment_with_normal((a1, b1), (a2, b2), n))
     }
+    /// `pff2 <cls> a1 b1 a2 b2 iso12 n1 flipped` : PolygonalFeature::face_face_contacts;  `pfv2 <cls> a1 b1 v2 iso12 sep1 flipped` : face_vertex_contacts
+    fn pfeat(func: &str, a: &mut Args) -> String {
+        use px::shape::{PolygonalFeature, Segment};
+        let mut man: px::query::ContactManifold<u32, u32> = px::query::ContactManifold::new();
+        if func == "pff" {
+            let a1 = p(a); let b1 = p(a); let a2 = p(a); let b2 = p(a); let m = iso(a); let n = v(a); let fl = a.b();
+            let f1 = PolygonalFeature::from(Segment::new(a1, b1)); let f2 = PolygonalFeature::from(Segment::new(a2, b2));
+            PolygonalFeature::face_face_contacts(&m, &f1, &n, &f2, &mut man, fl);
+        } else {
+            let a1 = p(a); let b1 = p(a); let v2 = p(a); let m = iso(a); let sep = v(a); let fl = a.b();
+            let f1 = PolygonalFeature::from(Segment::new(a1, b1));
+            let mut f2 = PolygonalFeature::from(Segment::new(v2, v2)); f2.num_vertices = 1;
+            PolygonalFeature::face_vertex_contacts(&m, &f1, &sep, &f2, &mut man, fl);
+        }
+        let mut s = format!("np {}", man.points.len());
+        for q in &man.points { s += &format!(" {} {} {}", fp(&q.local_p1), fp(&q.local_p2), ff(q.dist)); }
+        s
+    }
     /// normals: unit (exact) — the perpendicular of seg1, the direction of seg2 (seg2 parallel to the normal), axes, 3-4-5
     fn gen_clipn(r: &mut Rng, cls: &str, a1: &V, b1: &V, a2: &V, b2: &V, out: &mut Vec<(String, String)>) {
         let cands = [V::new(0.0, 1.0), V::new(1.0, 0.0), V::new(0.0, -1.0), V::new(-1.0, 0.0), V::new(0.6, 0.8), V::new(-0.8, 0.6)];
         for _ in 0..2 {
             let n = *r.pick(&cands);
             out.push(("clipn2".into(), format!("{} {} {} {} {} {}", cls, hv(a1), hv(b1), hv(a2), hv(b2), hv(&n))));
+            let m = if r.bool() { Isometry::identity() } else { gen_iso(r, true, 1.0) };
+            out.push(("pff2".into(), format!("{} {} {} {} {} {} {} {}", cls, hv(a1), hv(b1), hv(a2), hv(b2), hiso(&m), hv(&n), b(r.bool()))));
+            out.push(("pfv2".into(), format!("{} {} {} {} {} {} {}", cls, hv(a1), hv(b1), hv(a2), hiso(&m), hv(&n), b(r.bool()))));
         }
     }
     common!();
